@@ -11,7 +11,7 @@ def eval : P String := do
   let e ← pDExpr; let x ← pVec
   pEnd
   let b := e.box
-  pure (fmtHexFloat (e.misfit x) ++ " " ++ fmtVec (e.grad x) ++ " " ++ fmtOptVec b.lb ++ " " ++ fmtOptVec b.ub)
+  pure (fmtHexFloat (e.misfit x) ++ " " ++ fmtVec (e.grad x) ++ " " ++ fmtOptVec b.lb ++ " " ++ fmtOptVec b.ub ++ (if e.layersAgree then " L1" else " L0"))
 
 /-- `correct <dexpr> <q> <p>` → corrector result -/
 def correct : P String := do
